@@ -205,6 +205,7 @@ type candidate struct {
 	GrowthN int
 	Count   int64
 	Death   bool
+	Rank    int // number of distinct keys the input shows: an input that shows only this defect is preferred
 }
 
 var (
@@ -231,7 +232,8 @@ func addCandidate(c candidate) {
 		return
 	}
 	old.Count++
-	if shorter(c.Input, old.Input) {
+	if c.Rank < old.Rank || (c.Rank == old.Rank && shorter(c.Input, old.Input)) {
+		old.Rank = c.Rank
 		old.Input = append([]byte{}, c.Input...)
 		old.Variant, old.What, old.Family, old.GrowthF, old.GrowthN, old.Death = c.Variant, c.What, c.Family, c.GrowthF, c.GrowthN, c.Death
 	}
@@ -363,8 +365,12 @@ func (p *pool) merge(d *doneReport) {
 func (p *pool) record(b []pending, reports []caseReport) {
 	for _, r := range reports {
 		pc := b[r.ID]
+		keys := map[string]bool{}
 		for _, f := range r.Findings {
-			addCandidate(candidate{Key: f.Key, Input: pc.input, Variant: f.Variant, What: f.What, Family: pc.family})
+			keys[f.Key] = true
+		}
+		for _, f := range r.Findings {
+			addCandidate(candidate{Key: f.Key, Input: pc.input, Variant: f.Variant, What: f.What, Family: pc.family, Rank: len(keys)})
 		}
 		if r.PredictedFatal {
 			p.mu.Lock()
@@ -424,7 +430,7 @@ func (p *pool) runBatch(b []pending) {
 			run.EngineError("a worker died at input %q (family %s: %s %s) but the input does not kill a fresh worker in 3 runs\n%s", b[k].input, b[k].family, kind, msg, tail(out.stderr, 4000))
 		}
 		key := deathKey(kind, fn, msg, out.stderr)
-		addCandidate(candidate{Key: key, Input: b[k].input, Variant: "worker-death", Family: b[k].family, Death: true,
+		addCandidate(candidate{Key: key, Input: b[k].input, Variant: "worker-death", Family: b[k].family, Death: true, Rank: 1,
 			What: fmt.Sprintf("the worker process died (%s): %s; first go-imap frame %s — a panic outside the reader goroutine is not recovered by the client: fatal to the application", kind, msg, fn)})
 		p.merge(&doneReport{Cases: 1})
 		if atomic.AddInt64(&p.deaths, 1) >= maxDeaths {
@@ -618,8 +624,25 @@ func main() {
 			run.EngineError("predicted-fatal input %q did not kill a worker under the bare variant", pc.input)
 		}
 		kind, fn, msg := classifyDeath(out.stderr, false)
-		addCandidate(candidate{Key: deathKey(kind, fn, msg, out.stderr), Input: pc.input, Variant: "bare", Family: pc.family, Death: true,
+		addCandidate(candidate{Key: deathKey(kind, fn, msg, out.stderr), Input: pc.input, Variant: "bare", Family: pc.family, Death: true, Rank: 1,
 			What: fmt.Sprintf("unsolicited FETCH with no handler installed: the library's own `go msg.discard()` panics and kills the process (%s): %s", kind, msg)})
+	}
+
+	// informative only (not part of the property): valid base responses the client refuses
+	var refused []string
+	{
+		var jobs []job
+		for i, b := range baseResponses {
+			jobs = append(jobs, job{id: uint32(i), mask: variantMask("cmdsA"), flags: fVerbose, input: []byte(b)})
+		}
+		if os.Getenv("C11_DRY") == "" {
+			out := runWorker(jobs, workerOpts{})
+			for _, r := range out.reports {
+				if e := r.CloseErr["cmdsA"]; e != "" && e != "<nil>" {
+					refused = append(refused, fmt.Sprintf("%s -> %s", vk.Q(baseResponses[r.ID]), e))
+				}
+			}
+		}
 	}
 
 	gwg.Wait()
@@ -662,6 +685,7 @@ func main() {
 	run.Set("growth", growthSummary)
 	run.Set("growth_runs", growthRuns.Load())
 	run.Set("batches", p.batches)
+	run.Set("base_responses_refused_by_the_client_informative", refused)
 	run.Sample("grammar", string(defaults[len(defaults)/3]))
 	run.Sample("base", baseResponses[44])
 	if p.total.Delivered == 0 || p.total.Rejected == 0 {
